@@ -106,7 +106,7 @@ class AutoSeparatedPacketSerializer(BufferedIncrementalPacketSerializer[_T_SentD
         if self.__incremental_serialize_check_separator:
             while data.endswith(separator):
                 data = data.removesuffix(separator)
-            if separator in data:
+            if (data + separator).find(separator) != len(data):
                 raise ValueError(f"{separator!r} separator found in serialized packet {packet!r} which was not at the end")
         elif data.endswith(separator):
             yield data
